@@ -566,7 +566,13 @@ Print Assumptions c11_sound_full_holm.
    residues when a gene is constant at a non-dyadic value; pij, q1, qdiff, t^2 and nu are exact rationals of those
    tied to the real functions by tags 1150-1154 (harness: welch_cases: exact-grid inputs and non-dyadic
    constant genes whose stored statistics are read as exact dyadics).
-   sdg_stats st mask D H lo hi T b t_cdf s1 s2 = score_differential_genes on that pair. *)
+   sdg_stats st mask D H lo hi T b t_cdf s1 s2 = score_differential_genes on that pair.
+   CLUSTER-SIZE HYPOTHESIS OF EVERY THEOREM "FROM THE STATISTICS" BELOW (audit 4, A6; not a hypothesis of the
+   Coq statements, which are about the model; a hypothesis of reading them as statements about the code):
+   s_n s1 <= 2^21 and s_n s2 <= 2^21 (cells_in_int64_range).  The real n_cells is np.int64 and
+   _calculate_tt_nu computes n**3 - n**2 in int64, which wraps above 2^21 = 2,097,152 cells
+   (c11_cells_in_int64_range_no_wrap: no wrap up to there; c11_int64_wrap_outside_model: what the real code
+   gives beyond, where the model's nu is the un-wrapped one). *)
 
 (* soundness in terms of the statistics: a recorded gene g has both clusters >= n_cells_min, the
    restricted-Holm value of the Welch p-values below p_th, is in the list, and - PROVIDED NO RATIONAL SCORE
@@ -736,6 +742,8 @@ Proof.
   - cbv zeta. split; vm_compute; reflexivity.
 Qed.
 
+(* (an oracle that meets the four premises AND records a gene: c11_composed_premises_and_recorded_gene, after
+   c11_from_stats_nonvacuous below) *)
 (* the decision vectors of the two routes coincide (every gene, not only the recorded ones) *)
 Theorem c11_welch_route_decisions : forall H lo hi T b t_cdf tn,
   0 < H -> 0 <= lo <= H -> H <= hi <= 2 * H -> T <= 2 * H ->
@@ -900,6 +908,70 @@ Example c11_from_stats_nonvacuous :
 Proof.
   split; [eexists; split; [vm_compute; reflexivity|]; repeat split|].
   split; [vm_compute; reflexivity|]. split; vm_compute; reflexivity.
+Qed.
+
+(* The four oracle premises of c11_sound_exact_welch_composed (c11_composed_premises_nonvacuous) do not force the oracle to say "not significant" everywhere (audit 4, A6: with the step CDF
+   above sdg_stats records no gene at all).  c11_rec_tnu_cdf is the step CDF inside the band |t| <= boring_t = 1
+   and 0.5 + sign(t) 31/64 outside it: it meets the four premises AND, on the statistics file of
+   c11_from_stats_nonvacuous, gene 0 (t > boring_t) is recorded - premises and hypothesis
+   `nth_error v g = Some true` of c11_sound_exact_welch_composed hold TOGETHER, and so does its conclusion
+   (the full-Holm value of gene 0 is 6 < 20). *)
+Definition c11_rec_tnu_cdf (g : tnu) : option Z :=
+  if tnu_boring 1 1 g then c11_toy_tnu_cdf g
+  else match g with TN s _ _ _ _ => Some (32 + 31 * s) | _ => None end.
+Example c11_composed_premises_and_recorded_gene :
+  (forall n m c, c11_rec_tnu_cdf (TN (-1) (1 * 1) (1 * 1) n m) = Some c -> 20 <= 2 * c) /\
+  (forall n m c, c11_rec_tnu_cdf (TN 1 (1 * 1) (1 * 1) n m) = Some c -> 20 <= 2 * (2 * 32 - c)) /\
+  (forall g g' c c', band_le 1 1 g g' -> c11_rec_tnu_cdf g = Some c -> c11_rec_tnu_cdf g' = Some c' -> c <= c') /\
+  (forall g g', band_le 1 1 g g' \/ band_le 1 1 g' g -> c11_rec_tnu_cdf g = None -> c11_rec_tnu_cdf g' = None) /\
+  (exists v up, sdg_stats c11_st None 4 32 1 63 20 (Some (1, 1)) c11_rec_tnu_cdf c11_sa c11_sb = POk (v, up) /\
+                nth_error v 0%nat = Some true) /\
+  (exists l1 l2, cstats_of c11_sa = POk l1 /\ cstats_of c11_sb = POk l2 /\
+     nth_error (correct_ttest (2 * 32) 0 (welch_pvalues 32 1 63 None c11_rec_tnu_cdf (welch_genes 4 l1 l2))) 0%nat = Some 6).
+Proof.
+  assert (B : forall g, in_band 1 1 g = true -> c11_rec_tnu_cdf g = c11_toy_tnu_cdf g).
+  { intros g Hb. unfold in_band in Hb. apply andb_prop in Hb. destruct Hb as [_ Hb].
+    unfold c11_rec_tnu_cdf. rewrite Hb. reflexivity. }
+  destruct c11_composed_premises_nonvacuous as (P1 & P2 & P3 & P4 & _).
+  split; [|split; [|split; [|split; [|split]]]].
+  - intros n m c. exact (P1 n m c).
+  - intros n m c. exact (P2 n m c).
+  - intros g g' c c' Hb. pose proof Hb as (B1 & B2 & _). rewrite (B g B1), (B g' B2). exact (P3 g g' c c' Hb).
+  - intros g g' Hb.
+    assert (BB : in_band 1 1 g = true /\ in_band 1 1 g' = true).
+    { destruct Hb as [(B1 & B2 & _)|(B2 & B1 & _)]; split; assumption. }
+    destruct BB as [B1 B2]. rewrite (B g B1), (B g' B2). exact (P4 g g' Hb).
+  - eexists. eexists. split; [vm_compute; reflexivity | reflexivity].
+  - eexists. eexists. split; [vm_compute; reflexivity|]. split; [vm_compute; reflexivity|]. vm_compute. reflexivity.
+Qed.
+
+(* the cluster-size hypothesis (audit 4, A6): up to 2^21 cells the int64 arithmetic of the code and the
+   integer arithmetic of kterm agree on n**3 - n**2 ... *)
+Theorem c11_cells_in_int64_range_no_wrap : forall n,
+  cells_in_int64_range n -> 0 <= n * n * n - n * n < 2 ^ 63.
+Proof. exact kterm_den_no_int64_wrap. Qed.
+Print Assumptions c11_cells_in_int64_range_no_wrap.
+(* ... beyond it they do not: OBSERVED REAL-CODE BEHAVIOUR, outside the model.  D = 1 resp. 2.
+   (a) n1 = 3,000,000 cells half at 1.0 half at 3.0, n2 = 5 cells constant at 2.0:
+         int64 n1**3 - n1**2 = 8553246926290448384 (true value 26999991000000000000);
+         real aggregate_stats + _calculate_tt_nu: nu = 950360.77; model (and the code run with python ints): 2999999.
+   (b) n1 = 2,200,000 (half 1.0, half 3.0), n2 = 2,300,000 (half 1.0, half 3.5): both int64 values are NEGATIVE
+         (-7798748913709551616 for n1), nu_denom < 0 falls back to 1.0, real nu = 1.29e-12, t = -234.78 and the
+         real welch_t_test returns p = 1.0; model (and python ints): nu = 4364677, t^2 = 55119, p = 4.45e-308 (the clip).
+         Every gene of such a pair of nodes gets p = 1: no marker is recorded for the pair.
+   The wrap needs a node of more than 2,097,152 cells; (b) needs two (or one of 2^21 < n <= 2,642,245 cells whose
+   term dominates).  Leaf clusters are far below, internal nodes of a whole-atlas taxonomy need not be. *)
+Example c11_int64_wrap_outside_model :
+  ~ cells_in_int64_range 3000000 /\
+  (3000000 * 3000000 * 3000000 - 3000000 * 3000000) mod 2 ^ 64 = 8553246926290448384 /\
+  (2200000 * 2200000 * 2200000 - 2200000 * 2200000) mod 2 ^ 64 - 2 ^ 64 = -7798748913709551616 /\
+  (match welch_gene 1 (mk_cstat 3000000 6000000 15000000 3000000) (mk_cstat 5 10 20 5) with
+   | TN s _ _ nun nud => Some (s, nun / nud, (1000 * nun) / nud) | _ => None end) = Some (0, 2999999, 2999999000) /\
+  (match welch_gene 2 (mk_cstat 2200000 8800000 44000000 2200000) (mk_cstat 2300000 10350000 60950000 2300000) with
+   | TN s a d nun nud => Some (s, a / d, nun / nud) | _ => None end) = Some (-1, 55119, 4364677).
+Proof.
+  split; [unfold cells_in_int64_range; vm_compute; intros [_ H]; apply H; reflexivity|].
+  repeat split; vm_compute; reflexivity.
 Qed.
 
 (* ------------------------------------------------------------------ *)
